@@ -61,6 +61,9 @@ class TranslatorPython(Translator):
             args = list(map(self.from_expr, expr.args))
             # Unsigned integer division
             op = "//" if expr.op == "/" else expr.op
+            if expr.op == "<<":
+                # A count >= size gives 0: do not build huge integers
+                args[1] = "min(%s, %d)" % (args[1], expr.size)
             if len(expr.args) == 1:
                 return "((%s %s) & 0x%x)" % (
                     expr.op,
